@@ -413,6 +413,17 @@ class Check(Property):
                         r2 = r ** conv_exp(t, s)
                         if exps(r2) != {k: x * rr * s for k, x in A.items() if x * rr * s != 0}:
                             v.append(f"{tag}: (u**a)**b != u**(a*b) for b={s}")
+                    if all(x.denominator == 1 for x in A.values()) and A:
+                        # exact rational exponents stay exact whatever the container's own numeric type
+                        for fa_, fb_ in ((Fraction(1, 10), 3), (Fraction(1, 3), 2), (Fraction(2, 7), 5)):
+                            try:
+                                p1, p2 = U(a ** fa_) ** fb_, U(a ** (fa_ * fb_))
+                            except Exception as exc:  # noqa: BLE001
+                                v.append(f"{tag}: Fraction exponent raised {type(exc).__name__}: {exc}")
+                                break
+                            if not (p1 == p2) or (layer != "ph" and hash(p1) != hash(p2)) or \
+                                    exps(p2) != {k: x * fa_ * fb_ for k, x in A.items()}:
+                                v.append(f"{tag}: (u**{fa_})**{fb_} = {items_of(p1)} but u**{fa_ * fb_} = {items_of(p2)}")
             elif f in ("add", "remove", "rename") and layer in ("uc", "ph"):
                 # the operand's hash has been computed above (ha): a result must not inherit a stale cached hash
                 hash(a)
